@@ -125,6 +125,11 @@ def observe(case, backend, l2_steps=False) -> Obs:
     return o
 
 
+def has_marker(nd) -> bool:
+    from pydiverse.transform._internal.tree import verbs as V
+    return any(isinstance(x, V.SubqueryMarker) for x in nd.iter_subtree_preorder())
+
+
 def step_decisions(case, out):
     """For every non-join step of the main pipe (also the one that raised SubqueryError): the AST
     before the step, the verb node as it was first tested, and what the real
@@ -141,6 +146,10 @@ def step_decisions(case, out):
         node, reason = out.decisions[key]
         prev = out.points[f"{pid}@{k - 1}"]
         if st[0] == "drop":
+            continue
+        if has_marker(prev._ast):
+            # finding F32: the verb that was re-mapped onto the subquery keeps stale memoised function
+            # types, so the real cache below a marker is not the one a fresh computation gives
             continue
         nd2 = copy.copy(node)
         nd2.child = prev._ast
